@@ -121,6 +121,11 @@ func cmdVerify(args []string) int {
 		fr := verifyFunc(prog, fi, prog.Contracts[k], opts)
 		results = append(results, fr)
 		all = append(all, fr.Obls...)
+		if own, ic := refinementPair(prog, fi); own != nil {
+			fr2 := verifyRefine(prog, fi, own, ic, opts)
+			results = append(results, fr2)
+			all = append(all, fr2.Obls...)
+		}
 	}
 	discharge(all, opts)
 	for _, fr := range results {
